@@ -461,7 +461,19 @@ pub fn render(rng: &mut Rng, v: &Value) -> String {
 /// Turn a valid text into a (probably) invalid one.
 pub fn mangle(rng: &mut Rng, s: &str) -> String {
     let bytes = s.as_bytes();
-    match rng.below(16) {
+    match rng.below(18) {
+        16 => {
+            // a text of one or two punctuation characters (quotes, escapes, option and path markers)
+            let c = *rng.pick(&['\'', '"', '\\', '-', '=', '@', '{', '[', ' ', '~', '%', '*', '/', '.', ':', 'é']);
+            if rng.chance(1, 3) {
+                format!(" {} ", c)
+            } else if rng.chance(1, 3) {
+                format!("{}{}", c, c)
+            } else {
+                c.to_string()
+            }
+        }
+        17 => format!("{}{}{}", rng.pick(&["'", "@", "=", "~/", "./", "file:"]), s, rng.pick(&["'", "", "=", " "])),
         0 => String::new(),
         1 => {
             // truncate at a char boundary
